@@ -401,7 +401,23 @@ def rule_r12(ctx):
     c13.rule_r5(ctx, rid="C09.R12")
 
 
-RULES = [rule_r1, rule_r2, rule_r3, rule_r4, rule_r5, rule_r6, rule_r7, rule_r8, rule_r9, rule_r10, rule_r11, rule_r12]
+def rule_r13(ctx):
+    """Shared with C11.R1/R2: 'contained' - after a failed request the worker's close decision (flags, closing of the queued
+    requests, queue reset) is one requests_lock region and received() tests the flags inside that lock; tested outside, a
+    pipelined request read before the failure is parsed and executed after the 500 / truncated response."""
+    from . import c11
+    c11.rule_r1(ctx, rid="C09.R13")
+    c11.rule_r2(ctx, rid="C09.R13")
+
+
+def rule_r14(ctx):
+    """Shared with C13.R10: a send error in the I/O thread's flush must not leave the output lock held - the worker paused in
+    write_soon would never return from wait(), the task never finishes and the iterable's close() is never called."""
+    from . import c13
+    c13.rule_r10(ctx, rid="C09.R14")
+
+
+RULES = [rule_r1, rule_r2, rule_r3, rule_r4, rule_r5, rule_r6, rule_r7, rule_r8, rule_r9, rule_r10, rule_r11, rule_r12, rule_r13, rule_r14]
 
 from ..selftest import M, T, V  # noqa: E402
 
